@@ -51,6 +51,7 @@ type PushPullHandler struct {
 	ctx      iface.OrdaContext
 	managers *managers.Managers
 	lock     utils.Lock
+	locked   bool
 
 	casePushPull pushPullCase
 	initialCP    *model.CheckPoint
@@ -140,7 +141,9 @@ func (its *PushPullHandler) finalize() {
 		// the client still has to be answered and the lock released
 		its.err = errors.PushPullAbortionOfServer.New(its.ctx.L(), fmt.Sprintf("%v", r))
 	}
-	defer its.lock.Unlock()
+	if its.locked {
+		defer its.lock.Unlock()
+	}
 	if its.err == nil {
 		its.ctx.L().Infof("finish with CP %v -> %v and pulled ops: %d",
 			its.initialCP.ToString(), its.currentCP.ToString(), len(its.resPushPullPack.Operations))
@@ -188,12 +191,17 @@ func (its *PushPullHandler) logInitialConditions() {
 
 func (its *PushPullHandler) process(retCh chan *model.PushPullPack) {
 
-	its.lock.TryLock()
+	its.locked = its.lock.TryLock()
 
 	defer its.finalize()
 
 	// the response pack and the channel have to exist before anything can fail: finalize() answers through them
 	if its.err = its.initialize(retCh); its.err != nil {
+		return
+	}
+
+	if !its.locked { // another request for this datatype has been holding the lock too long
+		its.err = errors.PushPullAbortionOfServer.New(its.ctx.L(), "fail to lock "+its.getLockKey())
 		return
 	}
 
